@@ -402,6 +402,26 @@ def invalid_format_ops(rng, fs):
 # ---------------------------------------------------------------------------------------------
 # C11: streams targeted at the complete/partial relation
 
+KNOWN_FLOAT = [
+    # (format name, options or None = default_opts, inputs)
+    ("flag_no_required_mantissa_digits", None, ["NaN", "-inf", "-x", "-", "+x"]),
+    ("flag_none", None, ["inf", "-NaN", "-1"]),
+    ("sep_iltc_noreq", None, ["-_x", "_inf", "-__"]),
+    ("sep_i_hexfloat_prefix", None, ["1p1_a", "1p1_", "0x1p1_a"]),
+    ("radix30", None, ["infinity", "infinit", "inf"]),
+    ("radix19", None, ["inf", "+Inf"]),
+    ("radix28", Opts(exp=ord("x"), dp=ord("!")), ["nanx", "nan"]),
+    ("mixed_32_2_10", None, ["infinity"]),
+    ("sep_itc", None, ["1._1234567890123456789"]),
+]
+
+
+KNOWN_INT = {
+    "int_nolz": ("0", "+0", "-0"), "int_nolz_sep_l": ("_0", "0"), "int_suffix_h": ("1+1", "1+", "0 h"),
+    "int_prefix_x": ("0xg", "0x", "0xx"), "int_prefix_d": ("0d+", "0d"), "int_prefix_suffix_sep_iltc": ("1+_", "1h_", "10x_"),
+}
+
+
 def special_digit_formats(fs):
     """radix >= 19 formats in which letters of inf / NaN / infinity are digits"""
     return [(v, n) for v, n in formats_for(fs, "F") if fmt_info(v)["radix"] >= 16]
@@ -432,7 +452,7 @@ def agree_ops(rng, fs, scale=1.0):
         plain = not (info["sep"] or info["prefix"] or info["suffix"] or info["flags"] != 0xC)
         w = 0.4 if (plain and not few) else 1.0
         kk = lambda n: max(1, int(k(n) * w))
-        short = gens_float.short_strings(info, o, rng, exh=2, nsample=kk(260), maxlen=6)
+        short = gens_float.short_strings(info, o, rng, exh=2, nsample=kk(200), maxlen=6)
         for s in short:
             addf("f-short", fty(), fmt, o, s)
         alt = Opts(exp=ord("^"), dp=ord(","))
@@ -486,7 +506,7 @@ def agree_ops(rng, fs, scale=1.0):
         for s in short:
             addi("i-short", rng.choice(INT_TYPE_NAMES), fmt, 1 if rng.random() < 0.25 else 0, s)
         for s in INT_EDGE:
-            for ty in (INT_TYPE_NAMES if (few or not plain) else [rng.choice(INT_TYPE_NAMES), "i32", "u8"]):
+            for ty in (INT_TYPE_NAMES if few else [rng.choice(INT_TYPE_NAMES), "i32", "u8"]):
                 addi("i-edge", ty, fmt, 0, s)
         for s in ending_strings(info, o, rng, False, kk(40)) + junk_strings(info, o, rng, False, kk(20)) + \
                 long_strings(info, o, rng, False, kk(10)) + random_bytes(info, o, rng, kk(10), maxlen=12):
@@ -495,6 +515,16 @@ def agree_ops(rng, fs, scale=1.0):
         vals = gens.int_strings(ty, info["radix"], rng, 1)
         for s in rng.sample(vals, min(len(vals), kk(40))):
             addi("i-values", ty, fmt, 0, s.decode("latin-1"))
+    # one minimal witness per violation class found so far (always re-run; format-specific, so not in corpus/C11.ops)
+    byname = {n: v for v, n in ffmts}
+    for name, oo, strs in KNOWN_FLOAT:
+        if name in byname:
+            oo = oo or default_opts(fmt_info(byname[name]))
+            for s in strs:
+                addf("known", "f64", byname[name], oo, s)
+    for v, name in ifmts:
+        for s in ("+a", "-a", "+", "-") + KNOWN_INT.get(name, ()):
+            addi("known", "i32", v, 0, s)
     # default API
     info = fmt_info(STD)
     o = default_opts(info)
